@@ -290,6 +290,10 @@ class ProtobufReader(Converter):
     ) -> model.Type:
         if msg.type_name == "up:bool":
             return problem.environment.type_manager.BoolType()
+        elif msg.type_name == "up:integer":
+            return problem.environment.type_manager.IntType()
+        elif msg.type_name == "up:real":
+            return problem.environment.type_manager.RealType()
         elif msg.type_name.startswith("up:integer["):
             tmp = msg.type_name.split("[")[1].split("]")[0].split(", ")
             return problem.environment.type_manager.IntType(
